@@ -764,6 +764,22 @@ def c16(work, v, tier):
                     rands=[dict(module="Check_Codec", fn="codec", n=3000 if q else 30000, depth=3 if q else 4, salt=5)])
 
 
+@check("C05")
+def c05(work, v, tier):
+    q = tier == "quick"
+    return sm_check(work, v, "C05", tier, [], [], [],
+                    ["EqLaws on every generated tree: Eq reflexive; EVERY single point mutation (leaf, each slice / array / map element at every position, map key, "
+                     "operator, keyword, kind, capacity, sibling swap, one element more or fewer) makes Eq false in both directions; neutral variations "
+                     "(unexported struct field, presentation options) keep Eq true -- the oracle itself is mutation sensitive"],
+                    "IsEqual against spec/Equal.tla: for each tree, the pair (tree, independently rebuilt copy) must give nil both ways, every (tree, single point "
+                    "mutant) pair must give an error both ways, and neutral variations must give nil; leaves: int / string / bool / nil, pointers of depth 1-2, "
+                    "slices and arrays of length 0-3 (mutation at every position), nested slices, maps with 0-2 keys (value and key mutations), structs with an "
+                    "unexported field between exported ones; as a Stack element, as a Condition expression and nested (alias / pointer forms). No panic allowed. "
+                    "Random pairs with random mutations are validated by Check_Equal.tla",
+                    gens=[dict(module="Gen_Equal", family=f, fn="equal") for f in ["flat", "incond", "nested"]],
+                    rands=[dict(module="Check_Equal", fn="equal", n=4000 if q else 40000, depth=2 if q else 3)])
+
+
 def replay(prop, path, work):
     harness = lib.build_harness(work)
     rc, out, _ = lib.run([harness, "replay", path], timeout=300)
